@@ -8,7 +8,7 @@ def check(tier, seed):
     return G.generic_check(PID, "exploration", tier, seed, coq=False,
         rule="random games (corpus + random placements); at every position a random depth-first excursion (depth 3 quick / 5 thorough) of pseudo-legal moves incl. promotions, captures on rook squares, en passant, castling and null moves, with the check cache filled at random; a snapshot of every public observable (FEN, key, 12 piece sets, occupancy, king squares, material, psq sums, game phase, in-check, last move/capture, history length, repetition 1-3, evaluation) is compared before/after; distinct = distinct Zobrist keys of the start positions",
         streams=[dict(name="undo_monitor", kind="monitor", shards=lambda t: 8,
-                      args=lambda t, s, sh, path: ["pos-monitor", 800 if q else 12000, s * 1000 + sh, 3 if q else 5],
+                      args=lambda t, s, sh, path: ["pos-monitor", 800 if t == "quick" else 12000, s * 1000 + sh, 3 if t == "quick" else 5],
                       violation_kinds=["undo-does-not-restore"])])
 
 
